@@ -45,6 +45,7 @@ func checkC01(c *ev.Ctx) {
 	c.MinEvals(int64(len(cases) / 2))
 	par(len(cases), func(i int) {
 		k := cases[i]
+		noteCase(k.ID)
 		if !want(c, k.ID) {
 			return
 		}
